@@ -11,7 +11,7 @@ func init() {
 			if tier == "quick" {
 				return 10000
 			}
-			return 160000
+			return 600000
 		},
 		Rule: "case = one seeded hostile history (config drawn from 7 branch factors x 2 formats x 8 key types x 5 value types x 3 cache modes x 2 codecs; key pool r*bf^e / CRC-bucketed so every layer is populated; grow/drain phases down to empty) executed on the real tree next to a sorted-map model, every result compared, full Iter+Size after every op on small maps; non-trivial = reached height >= 1 AND contains a delete AND (a reload or a clone-switch); distinct by hash of (config, op list)",
 		Assumptions: []string{
